@@ -51,6 +51,13 @@ def generate(rng, tier, n):
             ww = dict(base, veh=(routes[0]['veh'] if routes else free[0]))
             jobs.append(K.gen_single(rng, ww, routes[0]['tour'] if routes else [], jid=90 + q, multi_alt=rng.chance(1, 4)))
         c = dict(base, routes=routes, free=free, jobs=jobs, goal='unassigned+tours+cost', pools=[1, 2, 3, 5, 8], reps=3)
+        if rng.chance(1, 2):
+            # all cost rates scaled by 2^-30 (exact in f64; the harness scales reported costs back): near-equal float costs, so a
+            # comparison that tolerates small differences stops being a total order and the reduction becomes split-dependent
+            c['cost_shift'] = 30
+            for r in routes:
+                r['veh'] = dict(r['veh'], cost_shift=30)
+            c['free'] = [dict(v, cost_shift=30) for v in free]
         cases.append(c)
     return cases
 
